@@ -503,6 +503,18 @@ impl<'a> NNumReal<'a> {
         }
     }
 
+    // Greater for +inf, Less for -inf, None for everything else
+    fn infinite_sign(&self) -> Option<Ordering> {
+        match self {
+            NNumReal::Float(f) if f.is_infinite() => Some(if *f > 0.0 {
+                Ordering::Greater
+            } else {
+                Ordering::Less
+            }),
+            _ => None,
+        }
+    }
+
     fn exact_to_rational(&self) -> Option<BigRational> {
         match self {
             NNumReal::Int(i) => Some(BigRational::from(i.to_bigint().into_owned())),
@@ -546,7 +558,13 @@ impl<'a> PartialOrd for NNumReal<'a> {
             (NNumReal::Int(a), NNumReal::Float(b)) => cmp_nint_f64(a, b),
             (NNumReal::Float(a), NNumReal::Int(b)) => cmp_nint_f64(b, a).map(|ord| ord.reverse()),
             (NNumReal::Float(a), NNumReal::Float(b)) => a.partial_cmp(b),
-            (a, b) => a.exact_to_rational()?.partial_cmp(&b.exact_to_rational()?),
+            (a, b) => match (a.infinite_sign(), b.infinite_sign()) {
+                // an infinite float has no exact rational but still compares with rationals
+                (Some(x), Some(y)) => Some(x.cmp(&y)),
+                (Some(x), None) if !b.is_nan() => Some(x),
+                (None, Some(y)) if !a.is_nan() => Some(y.reverse()),
+                _ => a.exact_to_rational()?.partial_cmp(&b.exact_to_rational()?),
+            },
         }
     }
 }
@@ -566,7 +584,10 @@ impl<'a> NNumReal<'a> {
             } // note swap
             (a, b) => match (a.exact_to_rational(), b.exact_to_rational()) {
                 (Some(a), Some(b)) => a.cmp(&b),
-                _ => b.is_nan().cmp(&a.is_nan()),
+                _ => match a.partial_cmp(b) {
+                    Some(ord) => ord,
+                    None => b.is_nan().cmp(&a.is_nan()),
+                },
             },
         }
     }
@@ -583,7 +604,10 @@ impl<'a> NNumReal<'a> {
             }
             (a, b) => match (a.exact_to_rational(), b.exact_to_rational()) {
                 (Some(a), Some(b)) => a.cmp(&b),
-                _ => a.is_nan().cmp(&b.is_nan()),
+                _ => match a.partial_cmp(b) {
+                    Some(ord) => ord,
+                    None => a.is_nan().cmp(&b.is_nan()),
+                },
             },
         }
     }
